@@ -453,6 +453,30 @@ def specs(draw, sharing=None, builders=None, max_len=48, long_prob=0.1, neg_stor
 # ------------------------------------------------------------------------------------------------ edits
 
 FACTORS = [0.01, 0.1, 0.5, 2.0, 3.0, 10.0, 100.0, 1.0]
+UNIT_FAMILIES = [["B", "kB", "MB", "GB", "TB"], ["ms", "s", "min", "hour", "day", "year"], ["mW", "W", "kW"],
+                 ["g", "kg", "tonne"], ["g/kWh", "kg/kWh", "kg/MWh"], ["kWh/GB", "Wh/MB", "kWh/TB"],
+                 ["W/TB", "kW/PB", "mW/GB"], ["kg/TB", "g/GB"], ["hour/day", "min/hour"], ["W/gpu", "kW/gpu"],
+                 ["GB/gpu", "MB/gpu"], ["kg/gpu", "g/gpu"], ["1/s", "1/min"], ["cpu_core*s/GB", "cpu_core*s/MB"],
+                 ["dimensionless", "percent"]]
+_ALT_CACHE = {}
+
+
+def unit_alternatives(unit):
+    """Other units of the same family (empty when the unit has no family here)."""
+    if unit not in _ALT_CACHE:
+        from efootprint.constants.units import u as _u
+        try:
+            uu = _u(unit).units
+        except Exception:
+            _ALT_CACHE[unit] = []
+            return []
+        out = []
+        for fam in UNIT_FAMILIES:
+            if any(_u(x).units == uu for x in fam):
+                out = [x for x in fam if _u(x).units != uu]
+                break
+        _ALT_CACHE[unit] = out
+    return _ALT_CACHE[unit]
 
 
 def live_names(spec):
@@ -479,7 +503,16 @@ def quantity_edit(draw, spec, names=None, again=None):
     e = spec["objs"][n]
     cls = e["cls"]
     cur = e.get(a) or S.default_quantity(cls, a)
-    mode = draw(st.sampled_from(["factor", "factor", "fresh"]))
+    mode = draw(st.sampled_from(["factor", "factor", "factor", "fresh", "fresh", "reexpress"]))
+    if mode == "reexpress":
+        # the same physical value written in another unit of its family: an edit that must change nothing
+        alts = unit_alternatives(cur[1])
+        if alts:
+            from efootprint.constants.units import u as _u
+            nu = draw(st.sampled_from(alts))
+            return dict(op="q", obj=n, attr=a, val=[float((cur[0] * _u(cur[1])).to(_u(nu)).magnitude), nu],
+                        reexpress=True)
+        mode = "factor"
     if mode == "fresh":
         try:
             val = draw(qrange(cls, a))
